@@ -396,6 +396,12 @@ impl TextResourceBuilder {
                     serde_path_to_error::deserialize(deserializer);
                 match result {
                     Ok(mut builder) => {
+                        if builder.text.is_none() {
+                            //without this check the recursion step below would load the very same file again, forever
+                            return Err(StamError::OtherError(
+                                "TextResourceBuilder: stand-off STAM JSON file for text resource has no text",
+                            ));
+                        }
                         //recursion step into the new builder:
                         if self.id.is_some() && builder.id.is_none() {
                             builder.id = self.id;
